@@ -462,6 +462,18 @@ def moviOk (name : String) (ops : List Operand) (w : Nat) : Bool :=
     | _, _ => true
   | _ => true
 
+/-- `fmov Vd|Hd|Sd|Dd, #fimm` (the operand is a double): the imm8 of the word - `imm8` at 20:13 in the scalar form, abc:defgh in the
+vector form - must expand (VFPExpandImm, read as a double; the H/S/D expansions of one imm8 denote the same number) to the operand.
+`true` for every other mnemonic / operand shape. -/
+def fmovImmOk (name : String) (ops : List Operand) (w : Nat) : Bool :=
+  if name != "fmov" then true else
+  match ops.filter (· != .none) with
+  | [.reg _, .fimm bits] =>
+    let scalar := (w >>> 24) % 32 == 30
+    let imm8 := if scalar then (w >>> 13) % 256 else (((w >>> 16) % 8) <<< 5) ||| ((w >>> 5) % 32)
+    vfpExpandImm 64 (BitVec.ofNat 8 imm8) == bits
+  | _ => true
+
 /-! ### the monitor -/
 
 inductive Verdict where
@@ -484,7 +496,8 @@ def judge (forms : List Form) (name : String) (ops : List Operand) (pc : BitVec 
     | [w] =>
       if forms.any (fun f => !f.isPartial && describes f ops pc w) then .full
       else if forms.any (fun f => f.isPartial && describes f ops pc w) then
-        (if moviOk name ops w.toNat then .partialOk else .bad "movi-immediate-or-shift-not-denoted")
+        (if !moviOk name ops w.toNat then .bad "movi-immediate-or-shift-not-denoted"
+         else if !fmovImmOk name ops w.toNat then .bad "fmov-immediate-not-denoted" else .partialOk)
       else if forms.any (fun f => f.matchesTemplate w.toNat) then .bad "operands-not-denoted-by-fields"
       else .bad "no-template-of-this-mnemonic-matches"
     | _ => .bad "unexpected-word-count"
